@@ -780,6 +780,59 @@ def t8_range_elements(ctx: Ctx):
         raise ShapeError(f'only {n} ranges evaluated')
 
 
+def t9_zero_sums(ctx: Ctx):
+    """Terms of unlike sign that cancel give -0 where the scope rounds toward negative (ops._zero_sum, C11.T2) and +0
+    elsewhere; the exact arithmetic of the analysis knows the +0 rule only.  So (a) every exact sum or difference (and
+    the accumulation of `sum`) reaches the scope through `_zero_sum_bound`, and (b) that helper, evaluated from its
+    source, declines the exact result for a round-toward-negative scope unless the result already admits -0 or cannot
+    be zero."""
+    from fractions import Fraction
+    cls = '_FormatInferInstance'
+    meths = {n: f for n, (_, _, f) in ctx.repo.methods(ANA, cls, inherited=False).items()}
+    n = 0
+    for name, f in meths.items():
+        parents = {c: p for p in ast.walk(f) for c in ast.iter_child_nodes(p)}
+        for k in calls_in(f):
+            if call_name(k) == 'exact_binop' and len(k.args) >= 3 and norm(k.args[2]) in ('operator.add', 'operator.sub'):
+                n += 1
+                p = parents.get(k)
+                ctx.check(isinstance(p, ast.Call) and call_name(p) == 'self._zero_sum_bound', ANA, k, f'{cls}.{name}',
+                          f'the exact {"sum" if norm(k.args[2]).endswith("add") else "difference"} is fitted to the scope by _zero_sum_bound',
+                          f'handed to `{call_name(p) if isinstance(p, ast.Call) else norm(p)[:40]}`: under an RTN scope `1 + (-1)` is inferred as {{+0}} and the program returns -0.0')
+        if name == '_sum_bound':
+            acc = [s for s in ast.walk(f) if isinstance(s, ast.Assign) and isinstance(s.value, ast.BinOp) and isinstance(s.value.op, ast.Add) and isinstance(s.targets[0], ast.Name)]
+            for a in acc:
+                users = [k for k in calls_in(f) if any(isinstance(x, ast.Name) and x.id == a.targets[0].id for x in k.args) and (call_name(k) or '').startswith('self._')]   # type: ignore
+                n += 1
+                ctx.check(bool(users) and all(call_name(k) == 'self._zero_sum_bound' for k in users), ANA, a, f'{cls}._sum_bound',
+                          'the accumulated format of sum() is fitted to the scope by _zero_sum_bound', f'handed to {[call_name(k) for k in users]}')
+    if n < 3:
+        raise ShapeError(f'only {n} exact sums found in the analysis')
+    fn = meths.get('_zero_sum_bound')
+    if fn is None:
+        ctx.bad(ANA, None, f'{cls}._zero_sum_bound', 'the scope-aware fit of a sum', 'helper not found')
+        return
+    NEGZ = Obj('NegZero')
+    exacts = {
+        '{+0}': (Obj('SetFormat', values=frozenset([Fraction(0)])), True), '{+0, 1}': (Obj('SetFormat', values=frozenset([Fraction(0), Fraction(1)])), True),
+        '{+0, -0}': (Obj('SetFormat', values={Fraction(0), NEGZ}), False), '{1, 2}': (Obj('SetFormat', values=frozenset([Fraction(1), Fraction(2)])), False),
+        'A(no -0)': (Obj('AbstractFormat', has_neg_zero=False), True), 'A(-0)': (Obj('AbstractFormat', has_neg_zero=True), False),
+    }
+    bad = None
+    rows = 0
+    for rm in ('RTN', 'RNE', 'RTZ', None):
+        scope = Obj('Context', rm=('enum', 'RM', rm)) if rm else Obj('RealContext')
+        for label, (ex, lacks) in exacts.items():
+            it = Interp({}, {}, globals_={'NEG_ZERO': NEGZ}, overrides={'self._resolve_active_ctx': lambda e, s=scope: s, 'self._bound_if_fits': lambda e, x: 'EXACT',
+                                                                     'getattr': lambda o, a, d=None: o.fields.get(a, d) if isinstance(o, Obj) else d, 'Fraction': Fraction})
+            got = it.call_function(fn, ['e', ex], bound_self=True)
+            rows += 1
+            if rm == 'RTN' and lacks and got is not None and bad is None:
+                bad = f'an exact result {label} under a round-toward-negative scope is taken as it is'
+    ctx.check(bad is None, ANA, fn, f'{cls}._zero_sum_bound', f'a round-toward-negative scope takes an exact sum only if it admits -0 or cannot be zero ({rows} rows)',
+              (bad or '') + ': x - x is inferred without a negative zero and the program returns -0.0')
+
+
 def g1_size_facts(ctx: Ctx):
     # format inference pins `len(xs)` to {n} and walks `for x in xs` exactly n times on the word of the array-size
     # analysis; where that analysis may constrain a length globally is decided in c13
@@ -788,6 +841,7 @@ def g1_size_facts(ctx: Ctx):
 
 RULES = [
     Rule('C14.G1', 'a list length format inference relies on is constrained only where every execution passes (= C13.G2, array sizes)', g1_size_facts, 15, 'G'),
+    Rule('C14.T9', 'an exact sum / difference / sum() is taken by a round-toward-negative scope only if it admits -0 or cannot be zero', t9_zero_sums, 4, 'T'),
     Rule('C14.T8', 'the element format of range(start, stop, step) holds every element, whichever way the range runs', t8_range_elements, 1, 'T'),
     Rule('C14.T1', 'every AbstractFormat operator covers the exact results of its members: finite range, infinities / NaN, sign of zero', t1_operator_soundness, 24, 'T'),
     Rule('C14.T2', 'containment agrees with membership; round_is_identity is containment in the target format', t2_containment, 10, 'T'),
@@ -803,6 +857,11 @@ RULES = [
 from ..selftest import Mutant  # noqa: E402
 
 MUTANTS = [
+    Mutant('difference-fitted-without-the-zero-rule', ANA, "                fitted = self._zero_sum_bound(\n                    e, exact_binop(lhs, rhs, operator.sub,", "                fitted = self._bound_if_fits(\n                    e, exact_binop(lhs, rhs, operator.sub,", 'C14.T9',
+           'finding F71 before its repair: x - x under an RTN scope is inferred without -0'),
+    Mutant('zero-rule-for-sets-only', ANA, "            else:\n                lacks = not exact.has_neg_zero\n", "            else:\n                lacks = False\n", 'C14.T9'),
+    Mutant('zero-rule-asks-for-rtz', ANA, "        if exact is not None and getattr(resolved, 'rm', None) is RM.RTN:", "        if exact is not None and getattr(resolved, 'rm', None) is RM.RTZ:", 'C14.T9'),
+    Mutant('sum-accumulation-fitted-without-the-zero-rule', ANA, "        fitted = self._zero_sum_bound(e, af_acc)", "        fitted = self._bound_if_fits(e, af_acc)", 'C14.T9'),
     Mutant('comprehension-element-unconditional-for-known-lengths', 'fpy2/analysis/array_size.py', "        with self._branch():\n            elt_ty = self._visit_expr(e.elt, ctx)\n\n        # One iterable",
            "        if all(isinstance(ty.size, int) for ty in iter_tys):\n            elt_ty = self._visit_expr(e.elt, ctx)\n        else:\n            with self._branch():\n                elt_ty = self._visit_expr(e.elt, ctx)\n\n        # One iterable", 'C14.G1',
            'seeded change C14d: a known length may be 0, and then the element never runs'),
